@@ -21,8 +21,11 @@ RULE = ("cases = a module state (fresh chain / module added to a running chain /
         "day epoch; distinct = distinct input")
 ASSUMPTIONS = [
     "the schedule predicate is evaluated on traces inside the theorem's hypotheses (Check.pre: Consistent start, consecutive "
-    "day epochs, fixed EpochsPerPeriod / MaxPeriod, polynomial positive below MaxPeriod, valid proportions, empty module "
-    "account, no wrap-around); every other trace is still compared with the model",
+    "day epochs, fixed EpochsPerPeriod / MaxPeriod, provision positive at every scheduled period, valid proportions, empty "
+    "module account, no wrap-around); the distribution predicate (everything minted is distributed, module account swept) is "
+    "evaluated on EVERY trace; every trace is compared with the model",
+    "the driver probes once per run whether a positive provision below one unibi panics (it did before fix: 2259f46); the "
+    "model follows the probe, the schedule predicate demands 'no panic', so such a tree is reported as a violation",
     "the sudo root exists and is not a blocked address; no LegacyDec overflow (315 bits)",
 ]
 TRUSTED = ["coq/Lib/Dec.v as a description of cosmossdk.io/math LegacyDec (exercised by every mint of every case)"]
@@ -107,13 +110,13 @@ def _facts(rec):
     i, o = rec["input"], rec["obs"]
     enabled = i["params"]["enabled"]
     f = {"enabled_days": 0, "disabled_days": 0, "rollovers": 0, "mints": 0, "zero_mints_enabled": 0, "toggles": 0,
-         "edits_ok": 0, "rejected": 0, "other_ids": 0, "funds": 0, "past_end": 0, "PANIC(sub-unit provision, reported finding)": 0}
+         "edits_ok": 0, "rejected": 0, "other_ids": 0, "funds": 0, "past_end": 0, "PANIC": 0}
     period = o["period"]
     mx = i["params"]["max"]
     for op, ob in zip(i["ops"], o["ops"]):
         k = op["op"]
         if ob.get("panic"):
-            f["PANIC(sub-unit provision, reported finding)"] += 1
+            f["PANIC"] += 1
         if k == "end" and op.get("day"):
             if enabled:
                 f["enabled_days"] += 1
@@ -188,7 +191,7 @@ def classify(rec):
         ks.append("sequences-never-written")
     for k, v in f.items():
         if v:
-            ks.append(k if k in ("past_end", "rollovers", "funds", "rejected", "other_ids", "zero_mints_enabled") or k.startswith("PANIC") else
+            ks.append(k if k in ("past_end", "rollovers", "funds", "rejected", "other_ids", "zero_mints_enabled") or k == "PANIC" else
                       "%s=%s" % (k, "1-2" if v < 3 else "3-9" if v < 10 else "10+"))
     return ks
 
